@@ -156,7 +156,7 @@ def range_steered(ctx, exact):
         ctx.vh("drive_range_steered", extra=["--w", str(w), "--s", str(s), "--p", str(p), "--trace", base, "--long"])
         if exact and s <= 16:
             ctx.validate_trace("TraceRange", base + ".exact.ndjson", {"W": w, "S": s}, invariants=["StateInv"], what="steered RangeEncoder<%d,%d> exact" % (w, s))
-    for c in ("run_of_9_or_more", "run_of_65_or_more", "run_of_256_or_more", "peek_while_holding_back", "narrow_range"):
+    for c in ("run_of_9_or_more", "run_of_65_or_more", "run_of_256_or_more", "peek_while_holding_back", "narrow_range", "seek_to_snapshot_with_256_held_back"):
         ctx.require(c)
 
 
@@ -179,6 +179,7 @@ def c11(ctx):
 @prop("C07")
 def c07(ctx):
     range_traces(ctx, exact=False)
+    range_steered(ctx, exact=False)
     ans_states(ctx, ["TypeInv", "StateInv", "LawAppendOnly", "LawPopAfterPush"], "c01", widths=[(2, 4, 3, 2), (3, 6, 3, 1)])
     range_hists(ctx, ["TypeInv", "StateInv", "InSync"], "c07")
     for c in ["seek_final", "seek_snapshot_inverted", "ans_seek"]:
